@@ -586,6 +586,7 @@ class PathRunner:
     def __init__(self, budget=None):
         self.budget = budget or Budget()
         self.worklist = [[]]
+        self.n_undecided = 0
         self.obligations = {}       # (name, prefix) -> Obligation
         self.paths = 0
         self.infeasible_paths = 0
@@ -643,6 +644,24 @@ class PathRunner:
 
     RLIMIT_PER_MS = 5000     # z3 resource units per millisecond on the reference machine (measured: ~4.9M / s)
 
+    @staticmethod
+    def guarded_check(s, ms, *assumptions):
+        """check() of any solver under the deterministic budget (rlimit), with the wall-clock timeout and a watchdog that
+        interrupts the context as safety nets (z3 does not always honour its own limits on quantified problems: a fresh
+        solver was seen to run for more than 20 minutes on a 4 s budget)"""
+        import threading
+        s.set('rlimit', int(ms * PathRunner.RLIMIT_PER_MS))
+        s.set('timeout', int(ms * 3 + 500))
+        wd = threading.Timer(ms * 3 / 1000.0 + 2.0, s.ctx.interrupt)
+        wd.daemon = True
+        wd.start()
+        try:
+            return s.check(*assumptions)
+        except z3.Z3Exception:
+            return z3.unknown
+        finally:
+            wd.cancel()
+
     def _check(self, *assumptions, timeout=None):
         """Budgets are given in milliseconds of the reference machine but enforced through z3's deterministic resource
         counter (rlimit), so that verdicts do not flip when the machine is loaded; the wall-clock timeout (6x) and the
@@ -650,10 +669,10 @@ class PathRunner:
         t0 = time.time()
         ms = timeout or self.budget.feas_ms
         self.solver.set('rlimit', int(ms * self.RLIMIT_PER_MS))
-        self.solver.set('timeout', int(ms * 6 + 500))
+        self.solver.set('timeout', int(ms * 3 + 500))
         # z3 does not always honour its own limits on quantified problems: a watchdog interrupts the context
         import threading
-        wd = threading.Timer(ms * 6 / 1000.0 + 3.0, self.solver.ctx.interrupt)
+        wd = threading.Timer(ms * 3 / 1000.0 + 2.0, self.solver.ctx.interrupt)
         wd.daemon = True
         wd.start()
         try:
@@ -724,13 +743,19 @@ class PathRunner:
             # quantifiers, for which a bounded-universe search is tried before the full budget is spent
             r = self._check(neg, timeout=min(300, self.budget.obl_ms))
             backend = 'z3'
+            # function budget: once two obligations of this function run were left undecided after the whole staged
+            # search (minutes each when z3 ignores its limits), the later ones only get the short stages - the run is
+            # already undecided (exit 2), this only bounds its duration; deterministic (a count, not a clock)
+            fast = self.n_undecided >= 2
             if r == z3.unknown:
                 # quantifier instantiation is sensitive to the search order: a few short attempts with fresh solvers and
                 # different seeds settle most of the provable cases the incremental solver misses
-                r, backend = self._portfolio(neg)
+                r, backend = self._portfolio(neg, (0,) if fast else (0, 1, 2))
             if r == z3.unknown:
-                r, backend, model = self._bounded_refute(neg, model_probe, ((2, 5, 3000), (4, 9, 3000)))
-            if r == z3.unknown:
+                r, backend, model = self._bounded_refute(neg, model_probe, ((2, 5, 3000),) if fast else ((2, 5, 3000), (4, 9, 3000)))
+            if r == z3.unknown and fast:
+                backend = 'z3 (function budget: two earlier obligations of this run were left undecided)'
+            elif r == z3.unknown:
                 if name in self.refuted_names:
                     backend = 'z3 (budget cut: same obligation already refuted on another path)'
                 else:
@@ -745,6 +770,8 @@ class PathRunner:
             verdict = _verdict(r)
             if r == z3.sat:
                 self.refuted_names.add(name)
+            if r == z3.unknown and not fast and 'budget cut' not in backend:
+                self.n_undecided += 1
             if r == z3.sat and model_probe and backend == 'z3':
                 # witness minimisation: the proof side is unbounded, only the witness search is bounded (small universe)
                 m_small = None
@@ -778,21 +805,16 @@ class PathRunner:
             print(f'[trace] path {self.paths} {verdict} {name} {backend} {ob.seconds:.2f}s', flush=True)
         return verdict == 'discharged'
 
-    def _portfolio(self, neg):
+    def _portfolio(self, neg, seeds=(0, 1, 2)):
         t0 = time.time()
         try:
-            for seed in (0, 1, 2):
+            for seed in seeds:
                 s = z3.Solver()
                 ms = min(4000, self.budget.obl_ms)
-                s.set('rlimit', int(ms * self.RLIMIT_PER_MS))     # deterministic budget, wall clock only as safety net
-                s.set('timeout', ms * 6)
                 s.set('random_seed', seed)
                 s.add(*self.pc)
                 s.add(neg)
-                try:
-                    r = s.check()
-                except z3.Z3Exception:
-                    r = z3.unknown
+                r = self.guarded_check(s, ms)     # deterministic budget, wall clock only as safety net
                 self.queries += 1
                 if r != z3.unknown:
                     return r, f'z3(fresh, seed {seed})'
@@ -836,11 +858,9 @@ class PathRunner:
         t0 = time.time()
         try:
             s = z3.Solver()
-            s.set('rlimit', int(self.budget.obl_ms * self.RLIMIT_PER_MS))
-            s.set('timeout', self.budget.obl_ms * 6)
             s.add(*self.pc)
             s.add(neg)
-            r = s.check()
+            r = self.guarded_check(s, self.budget.obl_ms)
             if r != z3.unknown:
                 return r, 'z3(fresh)'
             from . import solvers
